@@ -241,7 +241,77 @@ func genCall(r *rand.Rand, reg []string, tcp bool, tokenBody string) Call {
 	case 1:
 		c.Timeout = "hours"
 	}
+	// the body arrives in pieces: a Read returns less than asked for while more is to come
+	if r.Intn(4) == 0 && !(tcp && (c.Status == 204 || c.Status == 304)) {
+		c.Pieces = genPieces(r, tcp)
+	}
+	// the reader closes the body itself (Submit closes it again)
+	switch r.Intn(12) {
+	case 0, 1:
+		c.ReaderClose = "once"
+	case 2:
+		c.ReaderClose = "twice"
+	}
+	// an operation context may carry a span whatever the entry point is
+	if c.OpCtx != "" && r.Intn(8) == 0 {
+		c.Span = pick(r, spanKinds)
+	}
 	return c
+}
+
+var spanKinds = []string{"noop", "mock", "otel"}
+
+// pieceSizes: small pieces and sizes next to the powers of two that buffers are made of
+var pieceSizes = []int{1, 2, 3, 16, 100, 255, 256, 257, 511, 512, 513, 1000, 1023, 1024, 1025, 2048, 4095, 4096, 4097, 8192, 32768, 65536}
+
+func genPieces(r *rand.Rand, tcp bool) []int {
+	n := 1 + r.Intn(3)
+	if !tcp && r.Intn(6) == 0 {
+		n = 4 + r.Intn(20) // many small reads
+	}
+	var ps []int
+	for i := 0; i < n; i++ {
+		if n > 3 {
+			ps = append(ps, 1+r.Intn(8))
+			continue
+		}
+		ps = append(ps, pieceSizes[r.Intn(len(pieceSizes))])
+	}
+	return ps
+}
+
+// genKeepAlive: connection reuse on the case's Runtimes, one time in n.
+func genKeepAlive(r *rand.Rand, n int) string {
+	if r.Intn(n) != 0 {
+		return ""
+	}
+	return pick(r, []string{"enable", "wrap"})
+}
+
+// genEntry: the operations are submitted to a tracing transport made from the Runtime, one time in n.
+func genEntry(r *rand.Rand, n int) string {
+	if r.Intn(n) != 0 {
+		return ""
+	}
+	return pick(r, []string{"opentracing", "opentracing", "opentelemetry"})
+}
+
+// spanFor: the tracing transports act on operations whose context carries a span: most calls submitted to one get such a context
+func spanFor(r *rand.Rand, entry string, c *Call) {
+	if entry == "" || r.Intn(4) == 0 {
+		return
+	}
+	if c.OpCtx == "" {
+		c.OpCtx = pick(r, []string{"live", "live", "far"})
+	}
+	if r.Intn(6) != 0 {
+		c.Span = "otel"
+		if entry == "opentracing" {
+			c.Span = pick(r, []string{"noop", "mock"})
+		}
+	} else {
+		c.Span = pick(r, spanKinds) // a span of the other family: the transport sees none of its own
+	}
 }
 
 func genRtCtx(r *rand.Rand) string {
@@ -267,6 +337,8 @@ func genSeq(r *rand.Rand, tcp bool) *Case {
 		c.BasePath = genBasePath(r)
 	}
 	c.Adapter = r.Intn(10) == 0
+	c.KeepAlive, c.Entry = genKeepAlive(r, 6), genEntry(r, 6)
+	spanFor(r, c.Entry, &c.Calls[0])
 	return c
 }
 
@@ -303,11 +375,41 @@ func genConc(r *rand.Rand, tcp bool) *Case {
 		// one operation value submitted by every goroutine: all calls repeat the operation-level settings of the first
 		c.Conc.SharedOp = true
 		for i := range c.Calls {
-			c.Calls[i].OpClient, c.Calls[i].OpCtx, c.Calls[i].Timeout = c.Calls[0].OpClient, c.Calls[0].OpCtx, c.Calls[0].Timeout
+			c.Calls[i].OpClient, c.Calls[i].OpCtx, c.Calls[i].Timeout, c.Calls[i].Span = c.Calls[0].OpClient, c.Calls[0].OpCtx, c.Calls[0].Timeout, c.Calls[0].Span
+		}
+	}
+	// connection reuse: the keep-alive transports wrap every response body, and the body is closed by Submit whatever the reader
+	// did with it; half of the readers of such a run close the body themselves
+	if c.KeepAlive = genKeepAlive(r, 3); c.KeepAlive != "" {
+		for i := range c.Calls {
+			if c.Calls[i].ReaderClose == "" && r.Intn(2) == 0 {
+				c.Calls[i].ReaderClose = "once"
+			}
+		}
+	}
+	// all goroutines submit to ONE tracing transport made from the Runtime. Not with one shared operation value: the tracing
+	// transports wrap the operation's Params and Reader in place (see Assumptions), Runtime.Submit only reads the operation
+	if !c.Conc.SharedOp || sharedOpThroughTracing {
+		if c.Entry = genEntry(r, 5); c.Entry != "" {
+			for i := range c.Calls {
+				spanFor(r, c.Entry, &c.Calls[i])
+			}
+			if c.Conc.SharedOp {
+				for i := range c.Calls {
+					c.Calls[i].OpCtx, c.Calls[i].Span = c.Calls[0].OpCtx, c.Calls[0].Span
+				}
+			}
 		}
 	}
 	return c
 }
+
+// sharedOpThroughTracing: one *runtime.ClientOperation value submitted by several goroutines at once THROUGH a tracing transport.
+// tracingTransport.Submit / openTelemetryTransport.Submit assigned op.Params and op.Reader on the caller's value (they wrapped them
+// in place and never restored them), so two goroutines sharing the value raced on those fields, and every sequential re-submission
+// nested one more wrapper. Ruled a defect (an operation value may be shared with Runtime.Submit, which only reads it; the tracing
+// transports are entry points of the same Runtime), repaired in the library by 94d422b (they wrap on a copy) and pinned.
+const sharedOpThroughTracing = true
 
 func run(m *mon.M) {
 	r := m.Rand("cases")
